@@ -205,11 +205,14 @@ DLV_RULE = (" DLV: the ENC generator with delivery variants: integer vs packed-b
 
 PROPS["C01"] = {
     "coq": "theories/Props/C01.v",
-    "theorems": ["C01_subframe_lossless", "C01_frame_lossless", "C01_zigzag_inverse", "C01_fixed_predictors", "C01_midside"],
+    "theorems": ["C01_subframe_lossless", "C01_frame_lossless", "C01_zigzag_inverse", "C01_fixed_predictors", "C01_midside",
+                 "C01_decoder_reads_subframe", "C01_subframe_ops_are_these_bits", "C01_bytes_carry_the_bits", "C01_subframe_bytes_decode_to_input"],
     "streams": "ENC+DLV", "rule": "ENC+DLV",
     "oracle": lambda pid, res, driver: enc_oracle(pid, res, driver) + enc_oracle(pid, res, driver, "DLV"),
-    "assumptions": ["PARTIAL: theorems cover the meaning of the emitted components (predictors, residual coding, stereo); the bit-level "
-                    "parse of the emitted bytes is decided per run by the extracted independent decoder on the implementation's output",
+    "assumptions": ["PARTIAL: proved are the meaning of the emitted components (predictors, residual coding, stereo) and that the independent "
+                    "decoder reads exactly that meaning from the bits/bytes a verified subframe serialises to; frame framing (header fields, CRCs, "
+                    "padding), STREAMINFO and 'encoder subframes pass verification' are decided per run by the extracted independent decoder on "
+                    "the implementation's output",
                     "named hypothesis lpc_fits (LPC residuals representable in i32) - evaluated by the model on every case",
                     "a panic inside the floating-point estimators cannot be exhibited by the model (monitored only)"],
 }
@@ -529,7 +532,8 @@ PARSE_RULE = ("PARSE: small emitted streams (1-3 channels, 8/16/24 bits, blocks 
 
 PROPS["C15"] = {
     "coq": "theories/Props/C15.v",
-    "theorems": ["C15_number_parse_partial"],
+    "theorems": ["C15_number_parse", "C15_residual", "C15_residual_ops_bits", "C15_subframe", "C15_subframe_ops_bits",
+                 "C15_bytes_carry_the_bits", "C15_ideal_bits"],
     "streams": [PARSE_STREAM], "rule": PARSE_RULE,
     "oracle": parse_oracle,
     "assumptions": ["PARTIAL: only the number coding is proved through the parser model; the whole-tree inverse is decided per run",
@@ -745,11 +749,11 @@ CTOR_RULE = ("CTOR: every public constructor (Residual, QuantizedParameters, Con
 PROPS["C18"] = {
     "coq": "theories/Props/C18.v",
     "theorems": ["C18_total", "C18_residual", "C18_qparams_verifies", "C18_subframes", "C18_frame_verifies",
-                 "C18_streaminfo_verifies", "C18_verified_subframe_serialises"],
+                 "C18_streaminfo_verifies", "C18_verified_subframe_serialises", "C18_residual_parses_back", "C18_subframe_parses_back"],
     "streams": [CTOR_STREAM], "rule": CTOR_RULE,
     "oracle": ctor_oracle,
-    "assumptions": ["PARTIAL: parse-back identity and the serialisation of frames, headers, stream info and metadata are validated by the "
-                    "CTOR stream against the implementation and the parser model, not proved",
+    "assumptions": ["PARTIAL: the serialisation and parse-back of frames, headers, stream info and metadata are validated by the "
+                    "CTOR stream against the implementation and the parser model, not proved (residuals and subframes are proved)",
                     "FrameHeader::new still narrows bits_per_sample to u8 and sample_rate to u32 before looking at them (264 is taken as 8); "
                     "the result is self-consistent, so the property as stated holds; the model writes the casts out",
                     "QuantizedParameters has no serialisation of its own; identity of Stream is observed through re-serialised bytes "
